@@ -156,6 +156,9 @@ type Monitor struct {
 	// deliberately corrupts the stream): the monitor just stops.
 	Tolerant bool
 	Stopped  bool
+	// Loose lets Seal frame bodies whose size is not a multiple of the cipher
+	// block (a peer that holds the keys but does not follow the framing rules).
+	Loose bool
 }
 
 type negotiated struct {
